@@ -274,13 +274,23 @@ def _is_bool_test(e):
     return False
 
 
+_CTX = {}
+
+
 def _bool_atom(lab):
-    return isinstance(lab, tuple) and len(lab) == 4 and \
-        _is_bool_test(lab[1])
+    if not (isinstance(lab, tuple) and len(lab) == 4):
+        return False
+    if _is_bool_test(lab[1]):
+        return True
+    ctx = _CTX.get('ctx')
+    if ctx is not None:
+        return _is_bool_test(ctx.H.subst(lab[1], lab[2], lab[3]))
+    return False
 
 
 def r18_3(ctx, rc):
     prog = ctx.prog
+    _CTX['ctx'] = ctx
     for name in WALKERS:
         F = _util(ctx, name)
         params = F.params
@@ -404,6 +414,10 @@ def r18_4(ctx, rc):
                 enc['dict'] = tuple(ast.literal_eval(st.value))
             except Exception:
                 enc['dict'] = None
+        elif cname == 'bool' and isinstance(st, ast.Return) and isinstance(
+                st.value, ast.IfExp):
+            bool_rets.append((True, _const_tuple(st.value.body)))
+            bool_rets.append((False, _const_tuple(st.value.orelse)))
         elif cname == 'bool' and isinstance(st, ast.Return):
             # (value-test polarity, encoding)
             truth = [pol for t, pol in conds if isinstance(t, ast.Name)]
